@@ -80,6 +80,9 @@ func runC05(c *fw.Ctx, idx int) fw.Result {
 		res.Fail(class+":error-on-valid-input", "variants returned an error on valid input: "+err.Error(), files, argv)
 		return res
 	}
+	if idx%20 == 13 {
+		ac.binVariants(c, &res, idx, -1, -1, false, 0, false, 2, out)
+	}
 	names, muts, ok := model.ParseVariantsCSV(out)
 	if !ok || strings.Join(names, "\n") != strings.Join(ac.names, "\n") {
 		res.Fail(class+":rows", "output rows do not match the queries", files, argv)
